@@ -22,6 +22,7 @@ from . import common as C
 
 PID = "C11"
 META = {
+    "ready": True,
     "category": "proof",
     "technique": "Lean 4 proof that a faithful model of the equal? worklist (two stacks, pair-keyed visited set, pointer short cuts, one arm per kind, nested == for keys) computes equality of the unfoldings on every acyclic value graph with arbitrary sharing; hash/equality coherence and finite-map/set/sequence laws as theorems; model tied to /repo by a translator (configuration table) and by running the real code on generated value graphs (DAGs with shared nodes in every position) and collection operation sequences",
     "level_text": "Theorem eq_structural (SteelVerif/C11/Props.lean): for every acyclic value graph - leaves of every modelled kind, lists, pairs, immutable and mutable vectors, structs, boxes, hash maps and hash sets with arbitrary nesting and arbitrary sharing - the model of RecursiveEqualityHandler (as configured by the code that exists: GenSound.code_cfg_sound) returns exactly equality of the unfoldings; corollaries eq_refl, keys_interchangeable, eq_symm/eq_trans (values without hash maps/sets); hash_respects_eq (equal unfoldings hash alike, incl. order-independent map/set hashing and the two vector kinds); laws of hash-insert/ref/remove/contains/length, hashset, list/vector/string/bytevector indexing incl. boundary indices => error for all inputs. The legacy algorithm (visited keyed by single identities) is kept as Cfg.legacy with not_eq_structural_old / not_hash_respects_eq_old by decide. The model is tied to crates/steel-core/src/rvals/cycles.rs and rvals.rs on every run by translate/c11_cfg.py and by evaluating the real equal?/==/Hash/hash-contains? on the same graphs.",
